@@ -107,8 +107,72 @@ def run_delegate(ctx) -> RuleResult:
                 f"{func.name} is registered for numpy.{'/'.join(sorted(names))} but its result is computed by "
                 f"numpy.{'/'.join(sorted(delegates))} applied to the coefficient storage, never by the function it mirrors",
                 construct=f"{func.name}: delegates {sorted(delegates)}"))
+    # a wrapper that is not one of the natively implemented functions applies the numpy function it mirrors
+    seen = set()
+    for reg in ctx.regs:
+        if id(reg.func) in seen:
+            continue
+        seen.add(id(reg.func))
+        module, func = reg.module, reg.func
+        names = _short_targets(reg)
+        if not names:
+            continue
+        if func.name in NATIVE_IMPLEMENTATIONS:
+            result.exception(func.name, NATIVE_IMPLEMENTATIONS[func.name])
+            continue
+        referenced = set()
+        todo, done = [func], set()
+        while todo:
+            cur = todo.pop()
+            if id(cur) in done or len(done) > 12:
+                continue
+            done.add(id(cur))
+            for stmt in cur.body:
+                for node in ast.walk(stmt):
+                    if isinstance(node, (ast.Attribute, ast.Name)):
+                        dotted = ctx.dotted(module, node) or ""
+                        if dotted.startswith("numpy."):
+                            referenced.add(dotted.split(".")[-1])
+                        if dotted == SIMPLE_DISPATCH:
+                            referenced.add("<dispatch>")
+                    if isinstance(node, ast.Call) and isinstance(node.func, ast.Name) and node.func.id in module.functions \
+                            and node.func.id != func.name:
+                        todo.append(module.functions[node.func.id])
+        ok = bool(referenced & names) or "<dispatch>" in referenced
+        result.ob(f"{func.name} applies numpy.{'/'.join(sorted(names))} (or dispatches it)", ok, module.loc(func), "")
+        if not ok:
+            result.add(Finding(
+                "R-DELEGATE", module, func.name, func,
+                f"{func.name} is registered for numpy.{'/'.join(sorted(names))} but no longer applies that function (nor "
+                f"dispatches it): whatever it calls instead has its own semantics (which axis is cut, which dtype is kept, "
+                f"how operands broadcast), so numpy.{sorted(names)[0]}(poly) stops behaving like numpy.{sorted(names)[0]}",
+                construct=f"{func.name}: namesake not applied"))
     result.floor = 40
     return result
+
+
+# registered functions that implement the operation themselves instead of applying their numpy namesake
+# (confirmed by reading, one reason each); every other wrapper must apply the function it mirrors
+NATIVE_IMPLEMENTATIONS = {
+    "array_repr": "formats through to_string and numpy.array2string",
+    "array_str": "formats through to_string and numpy.array2string",
+    "det": "Laplace expansion over polynomial elements",
+    "ediff1d": "difference of shifted polynomial slices, joined by hand",
+    "full": "fills a new ndpoly key by key",
+    "full_like": "fills a new ndpoly key by key",
+    "inner": "sum(multiply(a, b), axis=-1)",
+    "matmul": "reshape + broadcast + multiply + sum",
+    "maximum": "term walk in glexsort order + where",
+    "minimum": "term walk in glexsort order + where",
+    "multiply": "C multiplier over exponent pairs",
+    "outer": "multiply of reshaped operands",
+    "power": "repeated multiply",
+    "prod": "fold of multiply along the axis",
+    "square": "multiply(x, x)",
+    "poly_divide": "polynomial long division (documented: / is not numpy.true_divide)",
+    "poly_divmod": "polynomial long division",
+    "poly_remainder": "polynomial long division",
+}
 
 
 def run_order(ctx) -> RuleResult:
